@@ -5,6 +5,29 @@
 
 package rtp
 
+import (
+	"reflect"
+	"unsafe"
+)
+
+// VerifNewSequencerAt returns a fixed sequencer (first value seq) whose roll-over count already
+// stands at roc, or nil when the sequencer has no uint64 field of that name (verification builds
+// only; found by name so that it keeps compiling when the implementation is restructured).
+func VerifNewSequencerAt(seq uint16, roc uint64) Sequencer {
+	s := NewFixedSequencer(seq)
+	v := reflect.ValueOf(s)
+	if v.Kind() != reflect.Ptr || v.Elem().Kind() != reflect.Struct {
+		return nil
+	}
+	f := v.Elem().FieldByName("rollOverCount")
+	if !f.IsValid() || f.Kind() != reflect.Uint64 || !f.CanAddr() {
+		return nil
+	}
+	reflect.NewAt(f.Type(), unsafe.Pointer(f.UnsafeAddr())).Elem().SetUint(roc) //nolint:gosec
+
+	return s
+}
+
 // VerifSeqHook, when set, is called inside the sequencer's critical section after the
 // state change and before the lock is released (verification builds only).
 var VerifSeqHook func(value uint16, rollOverCount uint64) //nolint:gochecknoglobals
